@@ -420,6 +420,11 @@ def play_asm(name, scripts=None):
 # ---------------------------------------------------------------------------
 # path 3: blocking API in two threads
 # ---------------------------------------------------------------------------
+class ApiContract(Exception):
+    """a socket-emulation call broke the contract of the call it emulates
+    (recorded as that step's outcome, so it differs from the baseline)"""
+
+
 def play_threads(name, sizes=None, api="rw"):
     """api: which of the equivalent calls carry the data steps - "rw"
     write()/read(), "sock" sendall()/recv(), "into" send()/recv_into(),
@@ -498,7 +503,7 @@ def play_threads(name, sizes=None, api="rw"):
                         conn.sendall(data)
                     elif api == "into":
                         if conn.send(data) != len(data):
-                            raise HarnessError("send() result")
+                            raise ApiContract("send() result")
                     elif api == "file" and data:
                         # (a buffered writer has nothing to flush for an
                         # empty write: that one goes through write())
@@ -511,6 +516,10 @@ def play_threads(name, sizes=None, api="rw"):
                     got = bytearray()
                     while len(got) < stp[2]:
                         want = stp[2] - len(got)
+                        if api != "rw":
+                            # in pieces smaller than what is available: a
+                            # call must never hand over more than asked for
+                            want = min(want, max(1, stp[2] // 3))
                         if api == "sock":
                             d = conn.recv(want)
                         elif api == "into":
@@ -523,6 +532,8 @@ def play_threads(name, sizes=None, api="rw"):
                             d = conn.read(want, 1)
                         if not d:
                             break
+                        if len(d) > want:
+                            raise ApiContract("more than asked for")
                         got += d
                     r["steps"][i] = ["r", hashlib.sha256(
                         bytes(got)).hexdigest(), len(got),
